@@ -93,7 +93,16 @@ class RspHandler:
         if crc != crc2:
             raise ValueError(f"Checksum {crc} != {crc2}")
         pkt = pkt[1:-3]
-        return pkt
+        # Undo the escaping of rsp_pack: '}' followed by (char ^ 0x20)
+        data = []
+        chars = iter(pkt)
+        for c in chars:
+            if c == "}":
+                escaped = next(chars, None)
+                if escaped is not None:
+                    c = chr(ord(escaped) ^ 0x20)
+            data.append(c)
+        return "".join(data)
 
 
 def decoder():
